@@ -822,6 +822,520 @@ fn from_config(ctx: &mut Ctx, malformed: bool, spectra: bool) {
   }
 }
 
+// ---------------------------------------------------------------------------------- part 3: grid level
+
+use spdcalc::{FrequencySpace, IntoSignalIdlerIterator, SumDiffFrequencySpace, WavelengthSpace};
+
+/// a range as the grid-level API accepts it, as PRIMITIVES: kind (0 FrequencySpace, 1 WavelengthSpace,
+/// 2 SumDiffFrequencySpace), endpoints and step counts of its own two axes
+#[derive(Clone, Copy, Debug)]
+pub struct Rg {
+  kind: u8,
+  x: (f64, f64, usize),
+  y: (f64, f64, usize),
+}
+
+macro_rules! with_rg {
+  ($rg:expr, $r:ident => $body:expr) => {
+    match $rg.kind {
+      0 => {
+        let $r = FrequencySpace::new(($rg.x.0 * RAD / S, $rg.x.1 * RAD / S, $rg.x.2), ($rg.y.0 * RAD / S, $rg.y.1 * RAD / S, $rg.y.2));
+        $body
+      }
+      1 => {
+        let $r = WavelengthSpace::new(($rg.x.0 * M, $rg.x.1 * M, $rg.x.2), ($rg.y.0 * M, $rg.y.1 * M, $rg.y.2));
+        $body
+      }
+      _ => {
+        let $r = SumDiffFrequencySpace::new(($rg.x.0 * RAD / S, $rg.x.1 * RAD / S, $rg.x.2), ($rg.y.0 * RAD / S, $rg.y.1 * RAD / S, $rg.y.2));
+        $body
+      }
+    }
+  };
+}
+
+impl Rg {
+  fn tokens(&self) -> String {
+    format!(
+      "{} {} {} {} {} {} {}",
+      ["F", "W", "SD"][self.kind as usize],
+      fl(self.x.0),
+      fl(self.x.1),
+      self.x.2,
+      fl(self.y.0),
+      fl(self.y.1),
+      self.y.2
+    )
+  }
+  /// `Into<FrequencySpace>` by the crate
+  fn freq(&self) -> FrequencySpace {
+    with_rg!(self, r => FrequencySpace::from(r))
+  }
+  /// the points of `Into<FrequencySpace>` (what counts / HOM / Schmidt enumerate)
+  fn freq_points(&self) -> Vec<(f64, f64)> {
+    self.freq().as_steps().into_iter().map(|(a, b)| (a.value_unsafe, b.value_unsafe)).collect()
+  }
+  /// the points of `IntoSignalIdlerIterator` (what the `*_range` methods enumerate)
+  fn iter_points(&self) -> Vec<(f64, f64)> {
+    with_rg!(self, r => r.into_signal_idler_iterator().map(|(a, b)| (a.value_unsafe, b.value_unsafe)).collect())
+  }
+}
+
+fn steps_tokens(f: &FrequencySpace) -> String {
+  let s = f.as_steps();
+  format!(
+    "{} {} {} {} {} {}",
+    fl(s.0 .0.value_unsafe),
+    fl(s.0 .1.value_unsafe),
+    s.0 .2,
+    fl(s.1 .0.value_unsafe),
+    fl(s.1 .1.value_unsafe),
+    s.1 .2
+  )
+}
+
+/// a grid around the centre frequencies; `identical`: the same axis for signal and idler (the
+/// HOM statement's domain); `kinds`: which range types may be drawn
+fn gen_rg(r: &mut Rng, spdc: &SPDC, nx: usize, ny: usize, identical: bool, kinds: &[u8]) -> Rg {
+  let ws0 = spdc.signal.frequency().value_unsafe;
+  let wi0 = spdc.idler.frequency().value_unsafe;
+  let sigma = spdcalc::phasematch::fwhm_to_spectral_width(spdc.pump.vacuum_wavelength(), spdc.pump_bandwidth).value_unsafe;
+  let span = r.log_range(0.3, 6.0) * sigma.abs();
+  let span2 = if r.coin() { span } else { r.log_range(0.3, 6.0) * sigma.abs() };
+  let f = if identical {
+    let c = 0.5 * (ws0 + wi0);
+    Rg { kind: 0, x: (c - span, c + span, nx), y: (c - span, c + span, ny) }
+  } else {
+    // now and then off-centre, so that part of the grid leaves the support
+    let off = if r.below(4) == 0 { r.range(-3.0, 3.0) * span } else { 0.0 };
+    Rg { kind: 0, x: (ws0 - span + off, ws0 + span + off, nx), y: (wi0 - span2, wi0 + span2, ny) }
+  };
+  let kind = *r.pick(kinds);
+  match kind {
+    1 => {
+      let wsp = f.freq().as_wavelength_space();
+      let s = wsp.as_steps();
+      Rg { kind: 1, x: (s.0 .0.value_unsafe, s.0 .1.value_unsafe, s.0 .2), y: (s.1 .0.value_unsafe, s.1 .1.value_unsafe, s.1 .2) }
+    }
+    2 => {
+      let sd = f.freq().as_sum_diff_space();
+      let s = sd.as_steps();
+      Rg { kind: 2, x: (s.0 .0.value_unsafe, s.0 .1.value_unsafe, s.0 .2), y: (s.1 .0.value_unsafe, s.1 .1.value_unsafe, s.1 .2) }
+    }
+    _ => f,
+  }
+}
+
+/// mirror of the driver's `scaleAt`: forward-error scale of `JointSpectrum::jsa` at one pair,
+/// `sqrt(norm) * envelope * (1/2) sum |f| w dx/3`; 0 off the support
+fn scale_at(spdc: &SPDC, ws: f64, wi: f64, divs: usize) -> f64 {
+  let wp = spdc.pump.frequency().value_unsafe;
+  let alpha = pump_spectral_amplitude(w(ws + wi), spdc);
+  let off = ws <= 0.0 || wi <= 0.0 || ws > wp || wi > wp || (ws - wi).abs() > 0.75 * wp || alpha < spdc.pump_spectrum_threshold;
+  if off {
+    return 0.0;
+  }
+  let s3 = spdc.clone();
+  let nrm = guard(move || *(jsi_normalization(w(ws), w(wi), &s3) / JsiNorm::new(1.0)));
+  match (simpson_abs_scale(spdc, ws, wi, divs), nrm) {
+    (Some(sc), Some(n)) => n.sqrt() * (alpha * sc),
+    _ => f64::NAN,
+  }
+}
+
+fn scales_on(spdc: &SPDC, pts: &[(f64, f64)], divs: usize) -> Vec<f64> {
+  pts.iter().map(|&(a, b)| scale_at(spdc, a, b, divs)).collect()
+}
+
+fn sum_sq(scales: &[f64]) -> f64 {
+  let mut a = 0.0;
+  for s in scales {
+    a += s * s;
+  }
+  a
+}
+fn norm_sq(f: &[Complex<f64>]) -> f64 {
+  let mut b = 0.0;
+  for z in f {
+    b += z.re * z.re + z.im * z.im;
+  }
+  b
+}
+fn amplification(scales: &[f64], f: &[Complex<f64>]) -> f64 {
+  sum_sq(scales) / norm_sq(f)
+}
+
+fn triples_c(zs: &[Complex<f64>], scs: &[f64]) -> String {
+  zs.iter().zip(scs).map(|(z, s)| format!("{} {}", cx(*z), fl(*s))).collect::<Vec<_>>().join(" ")
+}
+fn triples_r(vs: &[f64], scs: &[f64]) -> String {
+  vs.iter().zip(scs).map(|(v, s)| format!("{} {} {}", fl(*v), fl(0.0), fl(*s))).collect::<Vec<_>>().join(" ")
+}
+
+/// grid sizes: mostly small squares, some rectangles, 1 x n, now and then an empty axis
+fn gen_shape(r: &mut Rng, max: usize) -> (usize, usize) {
+  match r.below(10) {
+    0 => (1, r.between(1, max)),
+    1 => (r.between(1, max), 1),
+    2 | 3 => (r.between(2, max), r.between(2, max)),
+    4 if r.below(4) == 0 => (0, r.between(0, 3)),
+    _ => {
+      let n = r.between(2, max);
+      (n, n)
+    }
+  }
+}
+
+fn gen_divs(r: &mut Rng) -> usize {
+  // the 1-D rule needs divs >= 5 (5 -> 4 slices), the 2-D rule divs >= 3; 4 is the panic path of `JointSpectrum::new`
+  *r.pick(&[6usize, 8, 10, 12, 20, 6, 7, 10, 5, 4])
+}
+
+fn integ(divs: usize) -> Integrator {
+  Integrator::Simpson { divs }
+}
+
+/// an explicit-idler copy of the primitives (the idler-singles route exchanges the OBJECT's beams)
+fn explicit(p: &Prim, spdc: &SPDC) -> Option<(Prim, SPDC)> {
+  if !p.auto {
+    return Some((p.clone(), spdc.clone()));
+  }
+  let p2 = prim_of(spdc, false, p.matched);
+  let s2 = p2.build()?;
+  Some((p2, s2))
+}
+
+fn c14_grid(ctx: &mut Ctx, p: &Prim, spdc: &SPDC) {
+  let (nx, ny) = gen_shape(&mut ctx.rng, if ctx.thorough { 10 } else { 7 });
+  let rg = gen_rg(&mut ctx.rng, spdc, nx, ny, false, &[0, 1, 2]);
+  ctx.count(&format!("compose/grid/kind/{}", ["F", "W", "SD"][rg.kind as usize]));
+  ctx.count(&format!("compose/grid/points/{}", if nx * ny == 0 { "0".to_string() } else if nx * ny < 10 { "1-9".to_string() } else { "10+".to_string() }));
+  // the range adapters (no setup)
+  let pts = rg.iter_points();
+  ctx.k("cmpg_points", &rg.tokens(), &pts.iter().map(|(a, b)| format!("{} {}", fl(*a), fl(*b))).collect::<Vec<_>>().join(" "));
+  ctx.k("cmpg_freq_space", &rg.tokens(), &steps_tokens(&rg.freq()));
+  let divs = gen_divs(&mut ctx.rng);
+  let st = format!("{} | {} {}", p.tokens(), rg.tokens(), divs);
+  let s2 = spdc.clone();
+  let js = guard(move || s2.joint_spectrum(integ(divs)));
+  ctx.count(if js.is_some() { "compose/grid/joint-spectrum/ok" } else { "compose/grid/joint-spectrum/panic" });
+  let scs = scales_on(spdc, &pts, divs);
+  let j1 = js.clone();
+  let r = j1.and_then(|j| guard(move || with_rg!(rg, r => j.jsa_range(r))));
+  ctx.k("cmpg_jsa_range", &st, &r.map(|v| triples_c(&v, &scs)).unwrap_or("PANIC".into()));
+  let j1 = js.clone();
+  let r = j1.and_then(|j| guard(move || with_rg!(rg, r => j.jsi_range(r)).into_iter().map(|x| x.value_unsafe).collect::<Vec<_>>()));
+  let sq: Vec<f64> = scs.iter().map(|s| s * s).collect();
+  ctx.k("cmpg_jsi_range", &st, &r.map(|v| triples_r(&v, &sq)).unwrap_or("PANIC".into()));
+  // singles on a smaller grid (2-D quadrature per point)
+  if nx * ny <= 16 && divs <= 12 {
+    let j1 = js.clone();
+    let r = j1.and_then(|j| guard(move || with_rg!(rg, r => j.jsi_singles_range(r)).into_iter().map(|x| x.value_unsafe).collect::<Vec<_>>()));
+    ctx.k("cmpg_jsi_singles_range", &st, &r.map(|v| fls(&v)).unwrap_or("PANIC".into()));
+    if !p.auto {
+      let j1 = js.clone();
+      let r = j1.and_then(|j| guard(move || with_rg!(rg, r => j.jsi_singles_idler_range(r)).into_iter().map(|x| x.value_unsafe).collect::<Vec<_>>()));
+      ctx.k("cmpg_jsi_singles_idler_range", &st, &r.map(|v| fls(&v)).unwrap_or("PANIC".into()));
+    }
+  }
+}
+
+fn c08_grid(ctx: &mut Ctx, p0: &Prim, spdc0: &SPDC) {
+  let (p, spdc) = match explicit(p0, spdc0) {
+    Some(x) => x,
+    None => {
+      ctx.count("compose/grid/explicit-rebuild-failed");
+      return;
+    }
+  };
+  let p = &p;
+  let spdc = &spdc;
+  let stp = p.tokens();
+  // group indices (no poling: counts correction; with the setup's poling: transit times)
+  let s2 = spdc.clone();
+  let gi = guard(move || {
+    let c = &s2.crystal_setup;
+    vec![
+      *s2.signal.group_index(c, PeriodicPoling::Off),
+      *s2.idler.group_index(c, PeriodicPoling::Off),
+      *s2.signal.group_index(c, &s2.pp),
+      *s2.idler.group_index(c, &s2.pp),
+    ]
+  });
+  ctx.k("cmpg_group_index", &stp, &gi.map(|v| fls(&v)).unwrap_or("PANIC".into()));
+  let s2 = spdc.clone();
+  let corr = guard(move || spdcalc::get_counts_correction(&s2));
+  ctx.k("cmpg_counts_corr", &stp, &corr.map(fl).unwrap_or("PANIC".into()));
+  let (nx, ny) = gen_shape(&mut ctx.rng, if ctx.thorough { 7 } else { 5 });
+  let rg = gen_rg(&mut ctx.rng, spdc, nx, ny, false, &[0, 0, 1, 2]);
+  let divs = *ctx.rng.pick(&[6usize, 8, 10, 6, 5, 12, 4]);
+  let st = format!("{} | {} {}", stp, rg.tokens(), divs);
+  ctx.count(&format!("compose/grid/kind/{}", ["F", "W", "SD"][rg.kind as usize]));
+  // coincidences
+  let s2 = spdc.clone();
+  let c = guard(move || with_rg!(rg, r => s2.counts_coincidences(r, integ(divs))).value_unsafe);
+  let out = match (c, corr) {
+    (Some(v), Some(k)) => {
+      let fpts = rg.freq_points();
+      let (dx, dy) = rg.freq().as_steps().division_widths();
+      let dw2 = (dx.value_unsafe * dy.value_unsafe).abs();
+      let mut sc = 0.0;
+      for s in scales_on(spdc, &fpts, divs) {
+        sc += s * s * dw2;
+      }
+      format!("{} {} {}", fl(v), fl(0.0), fl(k.abs() * sc))
+    }
+    _ => "PANIC".into(),
+  };
+  ctx.count(if c.is_some() { "compose/grid/counts/ok" } else { "compose/grid/counts/panic" });
+  ctx.k("cmpg_counts_coinc", &st, &out);
+  // singles (2-D quadrature per point: small grids only)
+  if nx * ny <= 16 {
+    let s2 = spdc.clone();
+    let r = guard(move || {
+      vec![
+        with_rg!(rg, r => s2.counts_singles_signal(r, integ(divs))).value_unsafe,
+        with_rg!(rg, r => s2.counts_singles_idler(r, integ(divs))).value_unsafe,
+      ]
+    });
+    ctx.k("cmpg_counts_singles", &st, &r.map(|v| fls(&v)).unwrap_or("PANIC".into()));
+    let s2 = spdc.clone();
+    let r = guard(move || {
+      let e = with_rg!(rg, r => s2.efficiencies(r, integ(divs)));
+      vec![e.symmetric, e.signal, e.idler, e.coincidences.value_unsafe, e.signal_singles.value_unsafe, e.idler_singles.value_unsafe]
+    });
+    ctx.k("cmpg_efficiencies", &st, &r.map(|v| fls(&v)).unwrap_or("PANIC".into()));
+  }
+}
+
+fn gen_delays(r: &mut Rng, t0: f64) -> Vec<f64> {
+  let t0 = if t0.is_finite() { t0 } else { 0.0 };
+  let mut v = vec![0.0, t0];
+  for _ in 0..r.between(1, 2) {
+    v.push(t0 + r.normal() * 10f64.powf(r.range(-14.0, -11.0)));
+  }
+  v
+}
+
+fn c09_grid(ctx: &mut Ctx, p: &Prim, spdc: &SPDC) {
+  let stp = p.tokens();
+  let s2 = spdc.clone();
+  let td = guard(move || spdcalc::hom_time_delay(&s2).value_unsafe);
+  ctx.k("cmpg_time_delay", &stp, &td.map(fl).unwrap_or("PANIC".into()));
+  let identical = ctx.rng.below(3) != 0;
+  let (nx, ny) = if identical {
+    let n = ctx.rng.between(1, if ctx.thorough { 10 } else { 7 });
+    (n, n)
+  } else {
+    gen_shape(&mut ctx.rng, if ctx.thorough { 9 } else { 6 })
+  };
+  let rg = gen_rg(&mut ctx.rng, spdc, nx, ny, identical, if identical { &[0] } else { &[0, 1, 2] });
+  let divs = gen_divs(&mut ctx.rng);
+  ctx.count(if identical { "compose/grid/hom/identical-axes" } else { "compose/grid/hom/general" });
+  let fpts = rg.freq_points();
+  let scs = scales_on(spdc, &fpts, divs);
+  let s2 = spdc.clone();
+  let arr = guard(move || s2.joint_spectrum(integ(divs)).jsa_range(rg.freq()));
+  let sw: Vec<(f64, f64)> = fpts.iter().map(|&(a, b)| (b, a)).collect();
+  let scs_sw = scales_on(spdc, &sw, divs);
+  let amp = arr.as_ref().map(|a| (sum_sq(&scs) + sum_sq(&scs_sw)) / norm_sq(a));
+  let delays = gen_delays(&mut ctx.rng, td.unwrap_or(0.0));
+  let s2 = spdc.clone();
+  let d2 = delays.clone();
+  let r = guard(move || with_rg!(rg, r => s2.hom_rate_series(d2.into_iter().map(|t| t * S), r, integ(divs))));
+  ctx.k(
+    "cmpg_hom_series",
+    &format!("{} | {} {} | {}", stp, rg.tokens(), divs, fls(&delays)),
+    &match (r, amp) {
+      (Some(v), Some(a)) => triples_r(&v, &v.iter().map(|r| a * (1.0 + (1.0 - 2.0 * r).abs())).collect::<Vec<_>>()),
+      _ => "PANIC".into(),
+    },
+  );
+  let s2 = spdc.clone();
+  let r = guard(move || with_rg!(rg, r => s2.hom_visibility(r, integ(divs))));
+  ctx.k(
+    "cmpg_hom_vis",
+    &format!("{} | {} {}", stp, rg.tokens(), divs),
+    &match (r, amp) {
+      (Some((_, v)), Some(a)) => format!("{} {} {}", fl(v), fl(0.0), fl(2.0 * a * (1.0 + v.abs()))),
+      _ => "PANIC".into(),
+    },
+  );
+}
+
+fn c10_grid(ctx: &mut Ctx, p: &Prim, spdc: &SPDC) {
+  let stp = p.tokens();
+  let identical = ctx.rng.coin();
+  let (nx, ny) = match ctx.rng.below(8) {
+    0 => (ctx.rng.between(1, 4), ctx.rng.between(1, 4)), // mostly the assert_eq! path
+    _ => {
+      let n = ctx.rng.between(1, if ctx.thorough { 5 } else { 4 });
+      (n, n)
+    }
+  };
+  let rg = gen_rg(&mut ctx.rng, spdc, nx, ny, identical, if identical { &[0] } else { &[0, 1, 2] });
+  let divs = *ctx.rng.pick(&[6usize, 8, 10, 6, 5]);
+  let fpts = rg.freq_points();
+  let scs = scales_on(spdc, &fpts, divs);
+  let s2 = spdc.clone();
+  let arr = guard(move || s2.joint_spectrum(integ(divs)).jsa_range(rg.freq()));
+  let amp = arr.as_ref().map(|a| {
+    let f = rg.freq().as_steps();
+    let grid = |x: (spdcalc::Frequency, spdcalc::Frequency, usize), y: (spdcalc::Frequency, spdcalc::Frequency, usize)| -> Vec<(f64, f64)> {
+      FrequencySpace::new(x, y).as_steps().into_iter().map(|(a, b)| (a.value_unsafe, b.value_unsafe)).collect()
+    };
+    let b = (sum_sq(&scs) + sum_sq(&scales_on(spdc, &grid(f.1, f.1), divs)) + sum_sq(&scales_on(spdc, &grid(f.0, f.0), divs))) / norm_sq(a);
+    b * b
+  });
+  let delays = gen_delays(&mut ctx.rng, 0.0);
+  let s2 = spdc.clone();
+  let d2 = delays.clone();
+  let r = guard(move || with_rg!(rg, r => s2.hom_two_source_rate_series(d2.into_iter().map(|t| t * S), r, integ(divs))));
+  ctx.count(if r.is_some() { "compose/grid/hom2/ok" } else { "compose/grid/hom2/panic" });
+  ctx.k(
+    "cmpg_hom2_series",
+    &format!("{} | {} {} | {}", stp, rg.tokens(), divs, fls(&delays)),
+    &match (r, amp) {
+      (Some(h), Some(a)) => {
+        let all: Vec<f64> = h.ss.iter().chain(h.ii.iter()).chain(h.si.iter()).cloned().collect();
+        triples_r(&all, &all.iter().map(|v| a + v.abs()).collect::<Vec<_>>())
+      }
+      _ => "PANIC".into(),
+    },
+  );
+  let s2 = spdc.clone();
+  let r = guard(move || with_rg!(rg, r => s2.hom_two_source_visibilities(r, integ(divs))));
+  ctx.k(
+    "cmpg_hom2_vis",
+    &format!("{} | {} {}", stp, rg.tokens(), divs),
+    &match (r, amp) {
+      (Some(h), Some(a)) => triples_r(&[h.ss.1, h.ii.1, h.si.1], &[2.0 * (a + h.ss.1.abs()), 2.0 * (a + h.ii.1.abs()), 2.0 * (a + h.si.1.abs())]),
+      _ => "PANIC".into(),
+    },
+  );
+}
+
+fn c11_grid(ctx: &mut Ctx, p: &Prim, spdc: &SPDC) {
+  let stp = p.tokens();
+  // squares, rectangles of square length, rectangles of non-square length (Err), the empty grid (panic)
+  let (nx, ny) = match ctx.rng.below(10) {
+    0 => *ctx.rng.pick(&[(1usize, 4usize), (4, 1), (2, 8), (8, 2), (1, 9), (4, 9)]),
+    1 => *ctx.rng.pick(&[(2usize, 3usize), (3, 2), (1, 2), (5, 1), (3, 4)]),
+    2 if ctx.rng.below(3) == 0 => (0, ctx.rng.between(0, 2)),
+    _ => {
+      let n = ctx.rng.between(1, if ctx.thorough { 12 } else { 8 });
+      (n, n)
+    }
+  };
+  let identical = ctx.rng.below(4) == 0;
+  let rg = gen_rg(&mut ctx.rng, spdc, nx, ny, identical, &[0, 0, 1, 2]);
+  let divs = gen_divs(&mut ctx.rng);
+  let fpts = rg.freq_points();
+  let scs = scales_on(spdc, &fpts, divs);
+  let s2 = spdc.clone();
+  let arr = guard(move || s2.joint_spectrum(integ(divs)).jsa_range(rg.freq()));
+  let amp = arr.as_ref().map(|a| amplification(&scs, a));
+  let s2 = spdc.clone();
+  let r = guard(move || with_rg!(rg, r => s2.joint_spectrum(integ(divs)).schmidt_number(r)));
+  ctx.count(match &r {
+    Some(Ok(_)) => "compose/grid/schmidt/ok",
+    Some(Err(_)) => "compose/grid/schmidt/err",
+    None => "compose/grid/schmidt/panic",
+  });
+  ctx.k(
+    "cmpg_schmidt",
+    &format!("{} | {} {}", stp, rg.tokens(), divs),
+    &match (r, amp) {
+      (Some(Ok(k)), Some(a)) => format!("{} {} {}", fl(k), fl(0.0), fl(k * a)),
+      (Some(Err(e)), _) => format!("ERR:{}", if e.0.contains("not square") { "not-square" } else { "svd" }),
+      _ => "PANIC".into(),
+    },
+  );
+}
+
+fn c20_grid(ctx: &mut Ctx, p0: &Prim, spdc0: &SPDC) {
+  // half of the time the setup is the optimum itself and the grid starts AT its centre
+  let at_opt = ctx.rng.coin();
+  let (p, spdc) = if at_opt {
+    let s2 = spdc0.clone();
+    match guard(move || s2.try_as_optimum()).and_then(|r| r.ok()) {
+      Some(o) => {
+        let p2 = prim_of(&o, false, true);
+        match p2.build() {
+          Some(s) => (p2, s),
+          None => (p0.clone(), spdc0.clone()),
+        }
+      }
+      None => (p0.clone(), spdc0.clone()),
+    }
+  } else {
+    (p0.clone(), spdc0.clone())
+  };
+  let (p, spdc) = (&p, &spdc);
+  let stp = p.tokens();
+  let (nx, ny) = gen_shape(&mut ctx.rng, if ctx.thorough { 6 } else { 4 });
+  let mut rg = gen_rg(&mut ctx.rng, spdc, nx, ny, false, &[0, 0, 1, 2]);
+  if at_opt && ctx.rng.coin() {
+    // FrequencySpace whose first point is the centre
+    let ws0 = spdc.signal.frequency().value_unsafe;
+    let wi0 = spdc.idler.frequency().value_unsafe;
+    let f = rg.freq_points();
+    let (bx, by) = f.last().cloned().unwrap_or((ws0, wi0));
+    rg = Rg { kind: 0, x: (ws0, bx, nx.max(1)), y: (wi0, by, ny.max(1)) };
+    ctx.count("compose/grid/normalized/starts-at-optimum-centre");
+  }
+  let divs = *ctx.rng.pick(&[6usize, 8, 10, 12, 20, 5, 4]);
+  let st = format!("{} | {} {}", stp, rg.tokens(), divs);
+  let pts = rg.iter_points();
+  let scs = scales_on(spdc, &pts, divs);
+  let s2 = spdc.clone();
+  let js = guard(move || s2.joint_spectrum(integ(divs)));
+  // the centre's own scale (optimum setup at its centre frequencies) and the centre value itself
+  let s2 = spdc.clone();
+  let copt = guard(move || s2.try_as_optimum()).and_then(|r| r.ok());
+  let (c, sc) = match &copt {
+    Some(o) => {
+      let ws = o.signal.frequency().value_unsafe;
+      let wi = o.idler.frequency().value_unsafe;
+      let o2 = o.clone();
+      let c = guard(move || {
+        let n = *(jsi_normalization(w(ws), w(wi), &o2) / JsiNorm::new(1.0));
+        n.sqrt() * jsa_raw(w(ws), w(wi), &o2, integ(divs)).norm()
+      })
+      .unwrap_or(f64::NAN);
+      (c, scale_at(o, ws, wi, divs))
+    }
+    None => (f64::NAN, f64::NAN),
+  };
+  let j1 = js.clone();
+  let r = j1.and_then(|j| guard(move || with_rg!(rg, r => j.jsa_normalized_range(r))));
+  ctx.k(
+    "cmpg_jsa_normalized_range",
+    &st,
+    &r.map(|v| {
+      let s: Vec<f64> = v.iter().zip(&scs).map(|(z, s)| s / c + (z.re.abs() + z.im.abs()) * sc / c).collect();
+      triples_c(&v, &s)
+    })
+    .unwrap_or("PANIC".into()),
+  );
+  let j1 = js.clone();
+  let r = j1.and_then(|j| guard(move || with_rg!(rg, r => j.jsi_normalized_range(r))));
+  ctx.k(
+    "cmpg_jsi_normalized_range",
+    &st,
+    &r.map(|v| {
+      let s: Vec<f64> = v.iter().zip(&scs).map(|(x, s)| s * s / (c * c) + 2.0 * x * sc / c).collect();
+      triples_r(&v, &s)
+    })
+    .unwrap_or("PANIC".into()),
+  );
+  if nx * ny <= 9 && divs <= 12 {
+    let j1 = js.clone();
+    let r = j1.and_then(|j| guard(move || with_rg!(rg, r => j.jsi_singles_normalized_range(r))));
+    ctx.k("cmpg_jsi_singles_normalized_range", &st, &r.map(|v| fls(&v)).unwrap_or("PANIC".into()));
+  }
+}
+
 pub fn run(ctx: &mut Ctx) {
   let mode = ctx.extra.first().cloned().unwrap_or_else(|| "all".to_string());
   if mode == "c16" || mode == "c17" {
@@ -857,6 +1371,12 @@ pub fn run(ctx: &mut Ctx) {
       "c07" => spectrum(ctx, &p, &spdc, true),
       "c04" => auto_routines(ctx, &p, &spdc),
       "c20" => as_optimum(ctx, &p, &spdc),
+      "c14g" => c14_grid(ctx, &p, &spdc),
+      "c08" => c08_grid(ctx, &p, &spdc),
+      "c09" => c09_grid(ctx, &p, &spdc),
+      "c10" => c10_grid(ctx, &p, &spdc),
+      "c11" => c11_grid(ctx, &p, &spdc),
+      "c20n" => c20_grid(ctx, &p, &spdc),
       _ => {
         geometry(ctx, &p, &spdc);
         integrand(ctx, &p, &spdc);
